@@ -20,9 +20,10 @@ from mc import core
 
 # ------------------------------------------------------------------ alphabet
 
-PATHS_QUICK = ["a", "a.b", "a.b.c", "a.c", "b", ".a", "a.", ".a.b.", "a..b", ".", "", "time", "time.t", "meta.m",
-               "a.a", "a.a.a"]           # a segment name repeated deeper in the same path
-PATHS_MORE = ["a.b.c.d", "b.c", "..a", "a..b.c", "a.b..", "b..", "..", "meta", "a.b.a", "a.b.a.b"]
+# quick: a three level chain a / a.a / a.a.a whose segment name repeats (a node must still be named by its full path), the sibling a.b,
+# dotted variants, empty segments, the built-in share `time` and node `meta`
+PATHS_QUICK = ["a", "a.b", "a.a", "a.a.a", "b", ".a", "a.", ".a.b.", "a..b", ".", "", "time", "time.t", "meta.m"]
+PATHS_MORE = ["a.b.c", "a.c", "a.b.a", "a.b.a.b", "b.c", "..a", "a..b.c", "a.b..", "b..", "..", "meta"]
 VERBS = ["create", "createNode", "add", "addNode", "change"]
 
 
@@ -327,7 +328,7 @@ def explore(arg):
             for sp in (c, "." + c, c + ".", "." + c + "."):
                 if sp not in lookup_paths:
                     lookup_paths.append(sp)
-    lookup_paths += [p + ".value" for p in ("a", "a.b", "a.b.c", "a.c", "b", "time", ".a.", "meta")] + ["a.value.x", "zz", "a.zz"]
+    lookup_paths += [p + ".value" for p in ("a", "a.b", "a.a", "a.a.a", "a.b.c", "a.c", "b", "time", ".a.", "meta")] + ["a.value.x", "zz", "a.zz"]
     ops = [(v, p) for v in VERBS for p in paths]
 
     def judge_for(hist):
